@@ -72,6 +72,7 @@ def gen_E(rng, M):
 
 def impl_eject(M, N, E):
     obj = U.bare_emf()
+    obj.BH_ret_dyn = 0.37          # the model's own fraction must play no role when the budget is given explicitly (zero included)
     Mr, Nr = np.array(M, dtype=float), np.array(N, dtype=float)
     try:
         r = obj._dyn_eject_BH(Mr, Nr, M_eject=E)
